@@ -408,7 +408,15 @@ def _aca(rec, case, rng):
         c = dict(case, which='aca_3d', shape=list(shp), rank=r, lr=lr)
         rec.case(c, nontrivial=True)
         sig = {'kind': 'aca', 'route': 'aca_3d', 'lr': lr}
-        ok, X = guarded(rec, c, sig, lowrank.aca_3d, A, tol=1e-12, maxiter=60, verbose=0, lr=lr)
+        import io, contextlib
+        buf = io.StringIO()
+        with contextlib.redirect_stdout(buf):
+            ok, X = guarded(rec, c, sig, lowrank.aca_3d, A, tol=1e-12, maxiter=60, verbose=1, lr=lr)
+        # how the outer cross approximation says it terminated (mechanism signature of a deviation)
+        last = [l for l in buf.getvalue().splitlines() if 'outer it' in l]
+        why = last[-1] if last else ''
+        sig = dict(sig, stopped_by='skipcount' if 'skip count' in why else ('tolerance' if 'tolerance' in why else ('maxiter' if 'aximum iteration' in why else 'unknown')))
+        rec.count('aca3d_stop:' + sig['stopped_by'])
         if ok:
             rec.check_close('aca', float(np.abs(tensor.asarray(X) - A).max()), 1e-8 * (np.abs(A).max() + 1), sig, c)
 
